@@ -252,9 +252,12 @@ structure InvN (s : State) : Prop where
   n10b : ∀ t id par, s.npc t = .nSpawn id par → s.known id = true
   n10c : ∀ t id par, s.npc t = .nRet id par → s.known id = true
   n11 : ∀ t id, s.npc t = .tRun id → s.known id = true
+  n12a : ∀ t id p, s.npc t = .nSub id (some p) → s.known p = true
+  n12b : ∀ t id p, s.npc t = .nSpawn id (some p) → s.known p = true
+  n12c : ∀ t id p, s.npc t = .nRet id (some p) → s.known p = true
 
 theorem InvN.init : InvN State.init := by
-  refine ⟨?_, ?_, ?_, ?_, ?_, ?_, ?_, ?_, ?_, ?_, ?_, ?_, ?_, ?_, ?_, ?_⟩ <;> intros <;> simp_all [State.init, NPc.joining]
+  refine ⟨?_, ?_, ?_, ?_, ?_, ?_, ?_, ?_, ?_, ?_, ?_, ?_, ?_, ?_, ?_, ?_, ?_, ?_, ?_⟩ <;> intros <;> simp_all [State.init, NPc.joining]
 
 /-- the cases of one step of the new-thread machine -/
 inductive NCase (s : State) (t : Nat) : State → Prop
@@ -300,19 +303,19 @@ theorem stepN_cases {s s' : State} {t : Nat} {e : Ev} (h : stepNewThread s t e =
 set_option maxHeartbeats 4000000 in
 theorem InvN.step {s s' : State} (A : InvN s) (h : StepN s s') : InvN s' := by
   obtain ⟨t, e, hst⟩ := h
-  obtain ⟨n1, n2, n3a, n3b, n4, n5, n6, n6r, n7, n7r, n8, n9, n10a, n10b, n10c, n11⟩ := A
+  obtain ⟨n1, n2, n3a, n3b, n4, n5, n6, n6r, n7, n7r, n8, n9, n10a, n10b, n10c, n11, n12a, n12b, n12c⟩ := A
   have hc := stepN_cases hst
   clear hst
   cases hc
   case accept id0 par hpc =>
-    cases par <;> (refine ⟨?_, ?_, ?_, ?_, ?_, ?_, ?_, ?_, ?_, ?_, ?_, ?_, ?_, ?_, ?_, ?_⟩) <;>
+    cases par <;> (refine ⟨?_, ?_, ?_, ?_, ?_, ?_, ?_, ?_, ?_, ?_, ?_, ?_, ?_, ?_, ?_, ?_, ?_, ?_, ?_⟩) <;>
       grind [upd, NPc.joining]
   case dec id0 hpc hpos hmem =>
-    refine ⟨?_, ?_, ?_, ?_, ?_, ?_, ?_, ?_, ?_, ?_, ?_, ?_, ?_, ?_, ?_, ?_⟩
+    refine ⟨?_, ?_, ?_, ?_, ?_, ?_, ?_, ?_, ?_, ?_, ?_, ?_, ?_, ?_, ?_, ?_, ?_, ?_, ?_⟩
     · show s.cnt - 1 = (s.live.erase id0).length
       rw [List.length_erase_of_mem hmem, n1]
     all_goals grind [upd, NPc.joining]
-  all_goals (refine ⟨?_, ?_, ?_, ?_, ?_, ?_, ?_, ?_, ?_, ?_, ?_, ?_, ?_, ?_, ?_, ?_⟩)
+  all_goals (refine ⟨?_, ?_, ?_, ?_, ?_, ?_, ?_, ?_, ?_, ?_, ?_, ?_, ?_, ?_, ?_, ?_, ?_, ?_, ?_⟩)
   all_goals (first
     | (grind [upd, NPc.joining])
     | (trace_state; sorry))
